@@ -346,11 +346,26 @@ def result (A : Arith K) (s : State K) (op : Op K) : Except Panic (Out K) := (ca
 
 /-! ### Specification: integer convolution -/
 
+/-- `∑_{s<n} f s`. -/
+def sumTo (n : Nat) (f : Nat → Int) : Int :=
+  match n with
+  | 0 => 0
+  | n + 1 => sumTo n f + f n
+
+/-- Coefficient `u` of the product: `∑_{s+t=u} a_s b_t` — the mathematical definition. -/
+def convAt (a b : Array Int) (u : Nat) : Int :=
+  sumTo a.size (fun s => if s ≤ u ∧ u - s < b.size then a.getD s 0 * b.getD (u - s) 0 else 0)
+
+/-- The integer convolution, coefficient by coefficient (`[]` if either side is empty). -/
+def convSpec (a b : Array Int) : List Int :=
+  if a.size = 0 ∨ b.size = 0 then [] else (List.range (a.size + b.size - 1)).map (convAt a b)
+
 /-- `acc[k + j] += x * b[j]` for all `j`. -/
 def convRow (x : Int) (b : Array Int) (k : Nat) (acc : Array Int) : Array Int :=
   forRange 0 b.size (fun j acc => acc.modify (k + j) (· + x * b.getD j 0)) acc
 
-/-- Schoolbook convolution (`[]` if either side is empty); rows of zero coefficients skipped. -/
+/-- Schoolbook convolution (`[]` if either side is empty); rows of zero coefficients skipped.
+    This is the form the driver executes; `Lemmas/FftLoops.lean` proves `conv = convSpec`. -/
 def conv (a b : Array Int) : List Int :=
   if a.size = 0 ∨ b.size = 0 then []
   else
